@@ -137,6 +137,10 @@ theorem parse_render_digest (u r h : Bytes) (hu : 58 ∉ u) (hr : 58 ∉ r) (hh 
         rw [List.getLast?_append]; simp [List.getLast?_cons, List.getLast?_append, hl]
       rw [this] at hc; cases hc; exact hh.2 _ hl
 
+/-- the bound and the refused bytes read from the source are the ones the property names (255 bytes; ':', LF, CR, TAB, NUL) -/
+theorem maxFieldLen_eq : maxFieldLen = 255 := by decide
+theorem invalidFieldChars_eq : invalidFieldChars = [58, 10, 13, 9, 0] := by decide
+
 /-- names accepted by `_encode_field` contain no separator, so they satisfy the hypotheses above -/
 theorem encodeField_ok_no_colon (v w : Bytes) (h : encodeField v = .ok w) :
     w = v ∧ 58 ∉ v ∧ 10 ∉ v ∧ 13 ∉ v ∧ 9 ∉ v ∧ 0 ∉ v ∧ v.length ≤ 255 := by
@@ -152,6 +156,7 @@ theorem encodeField_ok_no_colon (v w : Bytes) (h : encodeField v = .ok w) :
         intro c hc hm
         have := ha c hm
         simp [List.contains_iff_mem, hc] at this
+      have hm := maxFieldLen_eq
       refine ⟨rfl, hn 58 (by decide), hn 10 (by decide), hn 13 (by decide), hn 9 (by decide), hn 0 (by decide), by omega⟩
 
 /-- a refused name leaves the database untouched -/
@@ -162,7 +167,8 @@ theorem bad_field_refused (s : St) (user : Bytes) (realm : Option Bytes) (hash :
   have he : encodeField user = .error .valueError := by
     unfold encodeField
     rcases hbad with hl | ⟨c, hc, hi⟩
-    · simp [hl]
+    · have : user.length > maxFieldLen := by rw [maxFieldLen_eq]; exact hl
+      simp [this]
     · split
       · rfl
       · have : user.any (invalidFieldChars.contains ·) = true := by
